@@ -73,6 +73,10 @@ def gen_c05(rng):
         for _ in range(rng.choice([1, 1, 2])):
             mas.append(["model_alias", a, ["named", rng.choice(["VSS_BMIX", "SLBKPOLE", "HELAMP", "PHSP", "ISGW2"]),
                                            gen.rand_params(rng, defined) if rng.random() < 0.8 else None]])
+    if malias and rng.random() < 0.25:
+        # a second name for an alias (`ModelAlias Second First;`), itself not used by any line: it says nothing about what the
+        # first name stands for, whose uses are expanded as ever
+        mas.append(["model_alias", rng.choice(["FF_Default", "Second", "MyModel2"]), ["alias", rng.choice(malias)]])
     pool = gen.safe_names(rng, 8, synthetic=0.1)
     blocks = []
     mothers = []
